@@ -324,6 +324,13 @@ def run_case(case, rng):
         m._state_list = tuple(S)
         m._action_list = tuple(A)
         sib.append(m)
+    if rng.random() < 0.5:
+        # the second member lists the SAME states and actions in another order: same shape, own labels
+        S2, A2 = list(S), list(A)
+        rng.shuffle(S2)
+        rng.shuffle(A2)
+        sib[1]._state_list, sib[1]._action_list = tuple(S2), tuple(A2)
+        case.count("pi_batches_with_differently_ordered_members")
     # the same planner solves a same-shape problem right after the judged one (an earlier result must not alias
     # scratch memory of a later call); the judged result is read only at the very end
     case.call("pi.plan_on(sibling)", pi.plan_on, sib[1], facts=facts_pi)
